@@ -31,28 +31,26 @@ fn mk(i: usize) -> Vertex<f64, u8, 1> {
     Vertex::new_with_uuid(Point::new([i as f64]), uuid::Uuid::nil(), Some(i as u8))
 }
 fn ident(v: &Vertex<f64, u8, 1>) -> usize {
-    match v.data() { Some(d) => *d as usize, None => usize::MAX }
+    match v.data { Some(d) => d as usize, None => usize::MAX }
 }
 
-macro_rules! greedy_check {
-    ($out:expr, $n:expr, $relfn:expr, $tag:literal) => {{
+macro_rules! greedy_check_exact {
+    ($out:expr, $n:expr, $relfn:expr) => {{
         let out = &$out;
         const N: usize = $n;
-        assert!(out.len() <= N, concat!("OBL ", $tag, "-no-growth: the output is never longer than the input"));
-        // position of each input vertex in the output (or none)
+        assert!(out.len() <= N, "OBL exact-no-growth: the output is never longer than the input");
         let mut pos = [usize::MAX; N];
         let mut k = 0;
         while k < N {
             if k < out.len() {
                 let id = ident(&out[k]);
-                assert!(id < N, concat!("OBL ", $tag, "-no-invention: every output vertex is an input vertex (same data)"));
-                assert!(id_of(out[k].point().coords()) == id && out[k].uuid().is_nil(), concat!("OBL ", $tag, "-intact: coordinates and UUID of a survivor are untouched"));
-                assert!(pos[id % N] == usize::MAX, concat!("OBL ", $tag, "-no-duplication: no input vertex appears twice"));
+                assert!(id < N, "OBL exact-no-invention: every output vertex is an input vertex (same data)");
+                assert!(id_of(out[k].point().coords()) == id && out[k].uuid().is_nil(), "OBL exact-intact: coordinates and UUID of a survivor are untouched");
+                assert!(pos[id % N] == usize::MAX, "OBL exact-no-duplication: no input vertex appears twice");
                 pos[id % N] = k;
             }
             k += 1;
         }
-        // greedy spec
         let mut kept = [false; N];
         let mut i = 0;
         while i < N {
@@ -68,9 +66,51 @@ macro_rules! greedy_check {
         let mut i = 0;
         let mut next = 0;
         while i < N {
-            assert!((pos[i] != usize::MAX) == kept[i], concat!("OBL ", $tag, "-greedy: a vertex survives exactly when it is unrelated to every earlier survivor (=> survivors pairwise unrelated, every dropped vertex related to an earlier survivor)"));
+            assert!((pos[i] != usize::MAX) == kept[i], "OBL exact-greedy: a vertex survives exactly when it is unrelated to every earlier survivor (=> survivors pairwise unrelated, every dropped vertex related to an earlier survivor)");
             if kept[i] {
-                assert!(pos[i] == next, concat!("OBL ", $tag, "-order: survivors keep their input order"));
+                assert!(pos[i] == next, "OBL exact-order: survivors keep their input order");
+                next += 1;
+            }
+            i += 1;
+        }
+    }};
+}
+
+macro_rules! greedy_check_epsilon {
+    ($out:expr, $n:expr, $relfn:expr) => {{
+        let out = &$out;
+        const N: usize = $n;
+        assert!(out.len() <= N, "OBL epsilon-no-growth: the output is never longer than the input");
+        let mut pos = [usize::MAX; N];
+        let mut k = 0;
+        while k < N {
+            if k < out.len() {
+                let id = ident(&out[k]);
+                assert!(id < N, "OBL epsilon-no-invention: every output vertex is an input vertex (same data)");
+                assert!(id_of(out[k].point().coords()) == id && out[k].uuid().is_nil(), "OBL epsilon-intact: coordinates and UUID of a survivor are untouched");
+                assert!(pos[id % N] == usize::MAX, "OBL epsilon-no-duplication: no input vertex appears twice");
+                pos[id % N] = k;
+            }
+            k += 1;
+        }
+        let mut kept = [false; N];
+        let mut i = 0;
+        while i < N {
+            let mut blocked = false;
+            let mut j = 0;
+            while j < i {
+                blocked = blocked || (kept[j] && $relfn(i, j));
+                j += 1;
+            }
+            kept[i] = !blocked;
+            i += 1;
+        }
+        let mut i = 0;
+        let mut next = 0;
+        while i < N {
+            assert!((pos[i] != usize::MAX) == kept[i], "OBL epsilon-greedy: a vertex survives exactly when it is unrelated to every earlier survivor (=> survivors pairwise unrelated, every dropped vertex related to an earlier survivor)");
+            if kept[i] {
+                assert!(pos[i] == next, "OBL epsilon-order: survivors keep their input order");
                 next += 1;
             }
             i += 1;
@@ -96,11 +136,11 @@ macro_rules! dedup_instance {
             let which: u8 = kani::any();
             if which % 3 == 0 {
                 let out = dedup_vertices_exact(&input);
-                greedy_check!(out, $n, rel, "exact");
+                greedy_check_exact!(out, $n, rel);
                 core::mem::forget(out);
             } else if which % 3 == 1 {
                 let out = dedup_vertices_epsilon(&input, 0.5);
-                greedy_check!(out, $n, rel, "epsilon");
+                greedy_check_epsilon!(out, $n, rel);
                 core::mem::forget(out);
             } else {
                 // filter_vertices_excluding(v, reference): keep exactly the vertices unrelated to every reference vertex
